@@ -1,12 +1,23 @@
 """C02 - the parse result is the bottom-up evaluation of the derivation tree."""
-import families, common_parse as cp
+import families, report, vlib, kernel, c02_step, common_parse as cp
+
 def run(tier, seed):
+    R = report.Run('C02', tier, seed); cases = []
+    wd = vlib.workdir('C02')
     d = {g.name: g for g in families.g_dir()}
     if tier == 'quick':
         sel = [(d[n], [3]) for n in ('e123', 'etf', 'rrece', 'chain', 'nullrun', 'mutual')] + [(d['lrec'], [4])] + [(g, [3]) for g in families.g_rand(seed + 100, 2)]
     else:
         sel = [(g, [l for l in (1, 2, 3, 4, 5) if (g.nt + 1) ** l <= 4000]) for g in d.values()] + [(g, [2, 3, 4]) for g in families.g_rand(seed + 100, 12)]
-    return cp.run_parse_property('C02', tier, seed, sel, ['accept', 'value', 'positions'],
-        'one query per (grammar unit, exact input length): for every byte string the returned value, the sequence of rule functor calls, and the term values/positions handed to functors '
-        'equal the reference bottom-up evaluation (rule value = non-commutative polynomial hash of the children, so order and identity of children are observable)',
-        cp.STD_OUTSIDE + ['value types other than unsigned / term_value<unsigned>', 'discards by error recovery (C08)'], cp.STD_ASSUME)
+    # (1) inductive step: one reduce of the real driver from an ARBITRARY stack height (covers inputs of any length)
+    kernel.run_kernels(R, c02_step.kernels(wd, ('etf', 'e123') if tier == 'quick' else ('etf', 'e123', 'nullrun', 'interl', 'chain')))
+    # (2) exact-length queries: whole parses against the reference evaluation
+    cp.run_parse_property('C02', tier, seed, sel, ['accept', 'value', 'positions'], '',
+        cp.STD_OUTSIDE + ['value types other than unsigned / term_value<unsigned>', 'discards by error recovery (C08)'],
+        cp.STD_ASSUME + ['step kernel: the semantic values of the handle range over 0..15 (arbitrary 32-bit values make the equivalence of two multiplier chains SAT-hard); the stacks are a harness class with a '
+                         'numeric height < 2^40 and an 8-slot window around the top, so the cvector / std::vector operations themselves are covered by the exact-length queries only'],
+        finish=False, R=R, defer=cases)
+    return cp.run_deferred(R, tier, cases,
+        'step kernel: one reduce step of the real driver from an arbitrary stack height < 2^40 - the functor receives exactly the handle (top n slots, right-side order), n entries are popped, the goto state is pushed; '
+        'exact-length queries: one per (grammar unit, input length): for every byte string the returned value, the sequence of rule functor calls, and the term values / positions handed to functors equal the '
+        'reference bottom-up evaluation (rule value = non-commutative polynomial hash of the children, so order and identity of children are observable)')
